@@ -5,7 +5,7 @@
 # runs go to a scratch directory so that the committed evidence stays that of the unchanged tree.
 set -u
 NAME=$1; shift
-SEED=/verif/seeded/$NAME
+SEED=${SEEDBASE:-/verif/seeded}/$NAME
 D=$(mktemp -d /var/tmp/seedrepo-XXXXXX)
 trap 'rm -rf "$D"' EXIT
 rsync -a --exclude /target --exclude .git /repo/ "$D/repo/"
